@@ -76,6 +76,58 @@ def oracle_hist(line, out):
             fr = impl_ps.hist(fresh_line).split(";")[1].split("@")[0]
             if fr != r:
                 return f"observation differs from that of a freshly built string: {r} vs {fr}"
+    return oracle_side(line)
+
+def oracle_side(line):
+    """second pass over the history on the implementation with observations that are not part of the protocol reply:
+    the hash (asked before AND after every edit, so that a memoised value would be seen), membership in a set of fresh
+    strings, repr, and the text tensor/expand/copy must produce (concatenated / padded / same)."""
+    parts = line[5:].split("|")
+    try:
+        s = impl_ps.mk(parts[0])
+    except Exception:
+        return None
+    def fresh(x):
+        return PauliString(pauli_str=str(x))
+    def hash_ok(x, when):
+        f = fresh(x)
+        if hash(x) != hash(f) or x not in {f} or f not in {x}:
+            return f"{when}: hash(P) differs from the hash of a string freshly built from its text {str(x)!r} (P == fresh is {x == f})"
+        if repr(x) != repr(f):
+            return f"{when}: repr differs from that of a fresh string: {repr(x)} vs {repr(f)}"
+        return None
+    why = hash_ok(s, "initially")
+    if why:
+        return why
+    for k, op in enumerate(parts[1:]):
+        t = op.split(" ")
+        prev = str(s)
+        expect = None
+        try:
+            if t[0] == "set":
+                s.set_substring(int(t[1]), unhx(t[2]))
+            elif t[0] == "setps":
+                s.set_substring(int(t[1]), impl_ps.mk(t[2]))
+            elif t[0] == "inc":
+                s.inc()
+            elif t[0] == "tensor":
+                q = impl_ps.mk(t[1]); s = s.tensor(q); expect = prev + str(q)
+            elif t[0] == "rtensor":
+                q = impl_ps.mk(t[1]); s = q + s; expect = str(q) + prev
+            elif t[0] == "expand":
+                n = int(t[1])
+                if n >= len(prev):
+                    expect = prev + "I" * (n - len(prev))
+                s = s.expand(n)
+            elif t[0] == "copy":
+                s = s.copy(); expect = prev
+        except Exception:
+            expect = None
+        if expect is not None and str(s) != expect:
+            return f"step {k + 1} ({op}): the result has text {str(s)!r}, expected {expect!r} (concatenated / padded / copied text of {prev!r})"
+        why = hash_ok(s, f"after step {k + 1} ({op})")
+        if why:
+            return why
     return None
 
 def oracle_genall(line, out):
